@@ -464,6 +464,67 @@ EXTRA = [
      ['write', 4, 'json'], ['result', 0, 'k'], ['result', 1, None]],
 ]
 
+# archives written at different times that share influence quantities, correlations declared BETWEEN
+# the writes, read back in other sessions in both orders (and with the context id reused)
+EXTRA.append(
+    [['real', None, 16, -1, False], ['real', None, 32, -1, False], ['corr', 0, 1, 4], ['archive'],
+     ['add', 0, [('x', 0), ('y', 1)]], ['write', 0, 'json'], ['real', None, 8, -1, False], ['corr', 0, 2, 2], ['archive'],
+     ['add', 1, [('x', 0), ('z', 2)]], ['write', 1, 'json'],
+     ['new', 14], ['read', 0], ['read', 1], ['extract', 0, ['x', 'y']], ['extract', 1, ['z']],
+     ['new', 15], ['read', 1], ['read', 0], ['extract', 1, ['x']], ['read', 1],
+     ['new', 13], ['read', 0], ['read', 1], ['read', 0]])
+
+def gen_multi(rng, k0):
+    """writer session: several archives written at different times sharing dependent influence quantities, with
+    correlations declared between the writes; then reader sessions (fresh context id, sometimes the writer's id
+    again) read the documents in a random order, possibly twice, possibly with the shared leaves alive"""
+    s = ASession(k0)
+    pick = lambda xs: xs[rng.randrange(len(xs))]
+    deps = []
+    def new_dep():
+        s.do(['real', pick([None, None, 'x', 'y']), rng.randint(1, 40), -1, False]); deps.append(len(s.objs) - 1)
+    for _ in range(rng.randint(3, 5)): new_dep()
+    if rng.random() < 0.4: s.do(['real', pick(LABELS), rng.randint(1, 40), rng.choice([-1, 5]), True])
+    if rng.random() < 0.4:
+        s.do(['complex', pick([None, 'z']), rng.randint(1, 40), rng.randint(1, 40), -1, False])
+        c = len(s.objs) - 1
+        s.do(['part', c, False]); deps.append(len(s.objs) - 1)
+    for t in range(rng.randint(2, 4)):
+        for _ in range(rng.randint(0 if t == 0 else 1, 2)):
+            a, b = rng.sample(deps, 2)
+            if s.objs[a]._node.uid != s.objs[b]._node.uid:
+                s.do(['corr', a, b, rng.choice([-6, -4, -2, 1, 2, 4, 6])])
+        if rng.random() < 0.4: new_dep()
+        members = rng.sample(deps, rng.randint(1, min(3, len(deps))))
+        if rng.random() < 0.5:
+            a, b = pick(deps), pick(deps)
+            s.do(['mul', a, b]); s.do(['result', len(s.objs) - 1, pick([None, 'm'])]); members.append(len(s.objs) - 1)
+        s.do(['archive']); ar = len(s.ars) - 1
+        s.do(['add', ar, [('t%d' % j, m) for j, m in enumerate(members)]])
+        s.do(['write', ar, rng.choice(['pickle', 'json', 'json', 'xml'])])
+    ndocs = len(s.docs)
+    if rng.random() < 0.4:                                   # shared leaves alive: reload in the writer session
+        for d in rng.sample(range(ndocs), rng.randint(1, ndocs)): s.do(['read', d])
+    used = [k0]
+    for _ in range(rng.randint(1, 2)):
+        k = k0 if rng.random() < 0.2 else max(used) + 1
+        used.append(k); s.do(['new', k])
+        order = list(range(ndocs)); rng.shuffle(order)
+        if rng.random() < 0.5: order.append(pick(order))
+        for d in order:
+            s.do(['read', d])
+            if s.outcomes[-1] == 'ok' and rng.random() < 0.5:
+                a = s.ars[-1]; names = list(a._tagged_real.keys())
+                if names: s.do(['extract', len(s.ars) - 1, rng.sample(names, rng.randint(1, len(names)))])
+        dd = kinds(s)['dep']
+        if len(dd) >= 2 and rng.random() < 0.5:              # a correlation declared among restored numbers, then another load
+            a, b = rng.sample(dd, 2)
+            if s.objs[a]._node.uid != s.objs[b]._node.uid:
+                s.do(['corr', a, b, rng.choice([-4, 2, 4])]); s.do(['read', pick(order)])
+        if s.ars and rng.random() < 0.3:
+            s.do(['copy', rng.randrange(len(s.ars))]); s.do(['write', len(s.ars) - 1, rng.choice(['json', 'xml'])])
+    return s
+
 def run_corr(rng, tier):
     n_rand = 110 if tier == 'quick' else 3000
     sessions = []; dist = {}; rows = {}
@@ -480,6 +541,8 @@ def run_corr(rng, tier):
             sessions.append(('row', s.close()))
     for h in EXTRA:
         sessions.append(('row', run_history(13, [list(o) for o in h]).close()))
+    for i in range(40 if tier == 'quick' else 600):
+        sessions.append(('multi', gen_multi(rng, rng.randint(1, 9)).close()))
     for i in range(n_rand):
         malformed = rng.random() < 0.25
         s = gen_history(rng, rng.randint(1, 9), rng.randint(12, 45 if tier == 'quick' else 70), malformed)
@@ -509,7 +572,9 @@ def run_corr(rng, tier):
             'distribution': dict(sorted(dist.items())), 'table_rows': rows,
             'rule': ('%d enumerated programs (archive state x operation, each followed by a write) + %d adaptive random '
                      'histories (25%% malformed: undeclared/constant/mixed/wrong-type objects, clashing tags, reused '
-                     'context ids); after EVERY step the outcome and the whole observable state are compared (63-bit '
+                     'context ids) + 40 (thorough 600) multi-archive histories (archives written at different times sharing dependent '
+                     'leaves, correlations declared between the writes, read back in other sessions in random orders); '
+                     'after EVERY step the outcome and the whole observable state are compared (63-bit '
                      'hash of the observation tree); distinct = number of distinct observation traces'
                      % (len(ROW_STATES) * len(ROW_OPS) + 3 * len(COLLISIONS) + len(EXTRA), n_rand)),
             'samples': [{'k0': s.k0, 'ops': s.ops[:12], 'outcomes': s.outcomes[:12]} for _, s in sessions[-2:]]}
